@@ -6,6 +6,13 @@ import os
 VERIF = os.path.dirname(os.path.dirname(os.path.abspath(__file__)))
 
 CHECKS = {
+    "C01": dict(
+        category="model_checking",
+        technique="TLA+ spec PyGrammar over production tables generated from harness/pygrammar.py (401 named productions of the Python 3.12 grammar, slot kinds, well-formed derivations, table sanity as ASSUMEs) checked by TLC; every derivation - each production alone in 14 layouts and 3 modes, every (parent, slot, child) nesting, depth-3 nestings from fixed random streams - rendered to source, parsed by CPython (oracle for membership and tree) and by xonsh's parser on an LALR table regenerated from the working tree; outcomes validated against PyGrammarTrace by TLC, failures explained only by listed productions / nestings (generated module PyGrammarKnown)",
+        text="The model contributes the enumerated, structured universe (about 1.7 x 10^5 distinct programs in the thorough tier, 2.5 x 10^4 in the quick tier) and the judgement `CPython accepts => xonsh accepts, same tree, compiles`; the decision for each program is the differential comparison with CPython's own parser after location-free normalisation that keeps node kinds, every identifier-bearing field, constants by type and value, contexts, operators, arity and order (a strict comparison, unlike the suite's nodes_equal). A failing derivation is accepted only if it contains a production, nesting or layout listed in known_findings_c01.json (written by a triage tool from a complete run on the pinned tree); any other failure is a violation.",
+        design_ref="3/C01, A.2",
+        note="Trusts CPython 3.12 as oracle and TLC for the per-derivation judgement; bounded nesting depth 3, fixed identifier pools; exec/single input is newline-terminated as Execer does. About 400 smallest failing derivations of the pinned parser are listed findings.",
+    ),
     "C06": dict(
         category="model_checking",
         technique="TLA+ spec Capture (writer / pipe / pump thread / copier thread with its four-step append on a buffer with one shared file position / polling reader; all interleavings) checked by TLC for PrefixAlways, Complete, BufferExact, EOFOnlyAfterAll, NoDeadlock and Termination under per-thread fairness; real captured commands run while the schedule points of the capture path delay chosen threads; the value the caller receives judged by Capture!ObsJudge (CaptureObsTrace) and the recorded schedule-point events validated against CaptureTrace by TLC",
@@ -167,7 +174,7 @@ def main():
             {"name": "tlc+replay", "path": "/verif/harness", "serves_properties": sorted(CHECKS), "kind_free_text": "explicit TLA+ specifications (specs/*.tla) model-checked by TLC; spec behaviours replayed into the real xonsh code and recorded executions validated against *Trace.tla specifications by TLC"}
         ],
         "checks": checks,
-        "not_applicable": [{"property_id": p, "reason": "check not built yet (see DESIGN.md section 7 for the build order)"} for p in ALL if p not in CHECKS],
+        "not_applicable": [{"property_id": p, "reason": "not built in the time available: the Resources ownership-ledger model and the /proc/self snapshot harness of DESIGN.md section 3/C09 remain design (DESIGN.md A.5); nothing is claimed through a stub"} for p in ALL if p not in CHECKS],
         "notes": "See DESIGN.md. exit 0 = held (KNOWN-FINDING lines for entries of known_findings.json), exit 1 = VIOLATION, exit 2 = machinery failure.",
     }
     with open(os.path.join(VERIF, "MANIFEST.json"), "w") as fh:
